@@ -1400,13 +1400,13 @@ def extend_pattern(rng):
         older = [v for v in range(ns, n) if times[v] > times[u]]
         if older and rng.random() < 0.9:
             parent[u] = older[min(int(rng.expovariate(0.9)), len(older) - 1)]
-    L = rng.randrange(2, 5)
-    bps = sorted(rng.sample(range(1, L), rng.randrange(1, min(L, 3))))
+    L = rng.randrange(2, 7)
+    bps = sorted(rng.sample(range(1, L), rng.randrange(1, min(L, 4))))
     segs = list(zip([0] + bps, bps + [L]))
     forests = []
     for k in range(len(segs)):
         par = list(parent)
-        for _ in range(rng.randrange(0, 3)):        # by-pass a node on this segment
+        for _ in range(rng.randrange(0, 3)):        # by-pass a node on this segment ...
             cand = [v for v in range(ns, n) if par[v] != NULL and any(par[c] == v for c in range(n))]
             if not cand:
                 break
@@ -1415,6 +1415,16 @@ def extend_pattern(rng):
                 if par[c] == v:
                     par[c] = par[v]
             par[v] = NULL
+            if rng.random() < 0.5:
+                # ... and use it somewhere else in this tree (unary above another node, possibly as
+                # a new root), so that it cannot be extended into this segment: edges are then
+                # lengthened / shortened without any edge disappearing
+                spots = [c for c in range(n) if c != v and times[c] < times[v]
+                         and (par[c] == NULL or times[par[c]] > times[v])]
+                if spots:
+                    c = rng.choice(spots)
+                    par[v] = par[c] if rng.random() < 0.7 else NULL
+                    par[c] = v
         forests.append(par)
     edges = []
     for u in range(n):
@@ -1462,18 +1472,78 @@ def extend_pattern(rng):
             "mutations": muts, "individuals": [], "populations": [], "migrations": []}
 
 
+def extend_partial(rng):
+    """Extension over PART of an edge's span: a unary node n sits on the c--P path in one tree,
+    c hangs directly below P in the next two, and in the last of them n is in use elsewhere
+    (so it cannot be extended there).  The edge P->c shrinks instead of disappearing (the number
+    of edges is unchanged) and mutations above c older than n must move onto n.  Randomised in
+    times, extra samples / bystander nodes, where n is re-used, orientation, sites and times."""
+    k_extra = rng.randrange(0, 3)
+    tn = rng.randrange(1, 4)
+    tP = tn + rng.randrange(1, 4)
+    tR = tP + rng.randrange(1, 3)
+    # ids: 0 = c, 1 = d, 2.. = extra samples, then n, P, R
+    ns = 2 + k_extra
+    n, P, R = ns, ns + 1, ns + 2
+    nodes = [[1, 0, NULL, NULL, bytes([i]).hex()] for i in range(ns)]
+    nodes += [[0, tn, NULL, NULL, "6e"], [0, tP, NULL, NULL, "50"], [0, tR, NULL, NULL, "52"]]
+    a = rng.randrange(1, 4)
+    b = a + rng.randrange(1, 4)
+    L = b + rng.randrange(1, 4)
+    reuse_root = rng.random() < 0.5          # in the third tree n hangs below R, or is a root itself
+    edges = [[0, a, n, 0, ""], [0, a, P, n, ""], [a, L, P, 0, ""],
+             [0, b, P, 1, ""], [b, L, n, 1, ""]]
+    if reuse_root:
+        edges.append([b, L, R, n, ""])
+    for x in range(2, ns):
+        edges.append([0, L, rng.choice([P, P, R]), x, ""])
+    if rng.random() < 0.5:
+        edges.append([0, L, R, P, ""])
+    # sites: at least one inside [a, b) carrying a mutation above c that is at least as old as n
+    pos2 = sorted(set([2 * a + rng.randrange(0, 2 * (b - a))] +
+                      [rng.randrange(0, 2 * L) for _ in range(rng.randrange(0, 4))]))
+    sites = [[p2 / 2 if p2 % 2 else p2 // 2, rng.choice("ACGT"), gen_ts.hx(rng)] for p2 in pos2]
+    muts = []
+    for si, (pos, _a, _m) in enumerate(sites):
+        if a <= pos < b:
+            t = tn + rng.randrange(0, 2 * (tP - tn)) / 2          # in [tn, tP)
+            muts.append([si, 0, rng.choice("ACGT"), NULL, t, gen_ts.hx(rng)])
+            if rng.random() < 0.4:                                 # a younger one below it
+                muts.append([si, 0, rng.choice("ACGT"), len(muts) - 1, rng.randrange(0, 2 * tn) / 2, ""])
+        elif rng.random() < 0.6:
+            u = rng.randrange(0, ns)
+            muts.append([si, u, rng.choice("ACGT"), NULL, rng.choice([0, 0.5]), gen_ts.hx(rng)])
+    d = {"L": L, "scale": rng.choice([1, 0.5, 2.5]), "nodes": nodes, "edges": edges, "sites": sites,
+         "mutations": muts, "individuals": [], "populations": [], "migrations": []}
+    if rng.random() < 0.5:                                         # mirror image (reverse direction)
+        d["edges"] = [[L - r, L - l, p, c, m] for l, r, p, c, m in edges]
+        new_pos = [L - 0.5 - s_[0] for s_ in sites]
+        order = sorted(range(len(sites)), key=lambda i: new_pos[i])
+        remap = {old: new for new, old in enumerate(order)}
+        d["sites"] = [[int(new_pos[i]) if new_pos[i] == int(new_pos[i]) else new_pos[i], sites[i][1], sites[i][2]]
+                      for i in order]
+        ms = [[remap[m[0]]] + m[1:] for m in muts]
+        idx = sorted(range(len(ms)), key=lambda j: (ms[j][0], -ms[j][4]))
+        nid = {old: new for new, old in enumerate(idx)}
+        d["mutations"] = [ms[j][:3] + [NULL if ms[j][3] == NULL else nid[ms[j][3]]] + ms[j][4:] for j in idx]
+    rng.shuffle(d["edges"])
+    return d
+
+
 class Extend(Flagged):
     name = "extend"
     workers = 8
 
     def _generate(self, rng, tier):
-        nd = 1000 if tier == "quick" else 12000
+        nd = 800 if tier == "quick" else 10000
         for k in range(nd):
             d = make_desc(rng, migrations=(rng.random() < 0.05), edge_md=False,
                           unknown_times=(rng.random() < 0.1), max_nodes=8, max_L=6)
             yield {"op": "extend_haplotypes", "max_iter": rng.choice([1, 2, 10, 10, 10, 10, 10, 0, -1]), "desc": d}
         for k in range(nd):
             yield {"op": "extend_haplotypes", "max_iter": rng.choice([1, 2, 10, 10, 10]), "desc": extend_pattern(rng)}
+        for k in range(nd // 2):
+            yield {"op": "extend_haplotypes", "max_iter": rng.choice([1, 2, 10, 10, 10]), "desc": extend_partial(rng)}
 
     def observe(self, case):
         d = case["desc"]
